@@ -19,6 +19,7 @@ import (
 func init() {
 	register("C01", "model_checking", func(r *ev.Run) {
 		ctlCampaign(r, "C01")
+		httpIDLeg(r)
 		repoTestsLeg(r, "C01")
 		freeRunLeg(r, "C01", map[string]int{"quick": 300, "thorough": 3000}[r.Tier])
 	})
